@@ -60,7 +60,7 @@ TraceEndPkg ==
   /\ IsEv("endpkg") /\ phase = "pkg"
   /\ LET p == Trace[pkgLine]
          f == p.fmt
-         c == C
+         c == EffCfg(C, C.ov[f])      \* the settings in effect for this format
          plan == PlanFor(c, Tree, f)
          st == plan[1]
          m == plan[2]
